@@ -31,6 +31,7 @@ MCArgs(name, h, dep) ==
          \cup {[obj |-> "a", kind |-> "weight", p |-> p, n |-> 0, w |-> w] : p \in 0..MaxP, w \in WeightSeqs}
     [] name = "MemoRequest" ->
          {[fn |-> f, n |-> n] : f \in Fns, n \in 1..MemoN} \ {[fn |-> f, n |-> 1] : f \in {"nodes_closed", "w_closed"}}
+    [] name = "GeoLength" -> {[curve |-> c] : c \in Lines}
     [] name = "GeoProject" ->
          {[curve |-> c, px |-> q[1], py |-> q[2]] : c \in Lines, q \in QueryPts}
     [] name = "GeoIntersect" ->
